@@ -723,7 +723,7 @@ impl<const M: usize> Drv<M> {
     }
 
     fn op_try_with(&mut self, depth: u32) {
-        let combo = self.rng.below(5);
+        let combo = self.rng.below(6);
         let fallible = self.rng.chance(1, 2);
         let ok = self.rng.chance(1, 2);
         let nested = depth == 0 && self.rng.chance(1, 8);
@@ -824,6 +824,10 @@ impl<const M: usize> Drv<M> {
                 }
             }};
         }
+        if combo == 5 {
+            self.op_try_with_zst(fallible);
+            return;
+        }
         match combo {
             0 => go!([u8; 100], u8),
             1 => go!(u64, u64),
@@ -831,6 +835,72 @@ impl<const M: usize> Drv<M> {
             3 => go!((), ()),
             _ => go!([u8; 1000], u32),
         }
+    }
+
+    /// a zero-sized Result slot: Result<Infallible, ()> can only be Err
+    fn op_try_with_zst(&mut self, fallible: bool) {
+        use std::convert::Infallible;
+        let lay = Layout::new::<Result<Infallible, ()>>();
+        let desc = format!("twbegin {} {} {}", lay.size(), lay.align(), fallible as u8);
+        self.begin(&desc);
+        let me: *mut Self = self;
+        let bump: *const Bump<M> = self.bump.as_ref().unwrap();
+        let mut entered = false;
+        let f = || -> Result<Infallible, ()> {
+            track::paused(|| {
+                let me = unsafe { &mut *me };
+                entered = true;
+                // a zero-sized slot sits at the finger (or at the static for a chunk-less arena)
+                let p = unsafe { (*bump).iter_allocated_chunks_raw().next().map(|(p, _)| p as usize) }
+                    .unwrap_or(bumpalo::verif_hooks::consts()[7]);
+                me.end(&desc, &Res::Entered(p));
+                me.begin("twend 0");
+            });
+            Err(())
+        };
+        let r = guarded(|| unsafe {
+            if fallible {
+                match (*bump).try_alloc_try_with(f) {
+                    Ok(_) => Ok(()),
+                    Err(bumpalo::AllocOrInitError::Alloc(_)) => Err(false),
+                    Err(bumpalo::AllocOrInitError::Init(())) => Err(true),
+                }
+            } else {
+                match (*bump).alloc_try_with(f) {
+                    Ok(_) => Ok(()),
+                    Err(()) => Err(true),
+                }
+            }
+        });
+        match r {
+            Ok(Err(true)) => self.end("twend 0", &Res::Err),
+            Ok(Err(false)) => self.end(&desc, &Res::Err),
+            Ok(Ok(())) => self.line("K bad zero-sized Result came back Ok"),
+            Err(p) => { if entered { self.end("twend 0", &p); } else { self.end(&desc, &p); } }
+        }
+    }
+
+    /// C18: chunk_capacity() never overstates: ask for exactly that many bytes
+    fn op_probe_capacity(&mut self) {
+        let cap = self.b().chunk_capacity();
+        if cap == 0 || cap > HUGE {
+            return;
+        }
+        let lay = Layout::from_size_align(cap, 1).unwrap();
+        let desc = format!("alloc {} 1 1 probe_c18", cap);
+        self.begin(&desc);
+        let b = self.bump.as_ref().unwrap();
+        let r = guarded(|| b.try_alloc_layout(lay).map(|p| p.as_ptr() as usize).map_err(|_| ()));
+        let out = match r {
+            Ok(Ok(a)) => {
+                let exp = pattern(&mut self.rng, cap);
+                unsafe { write_bytes(a, &exp) };
+                Ok((a, cap, 1, exp))
+            }
+            Ok(Err(())) => Err(Res::Err),
+            Err(p) => Err(p),
+        };
+        self.record_alloc(&desc, out);
     }
 
     /// alloc_slice_try_fill_with / _iter: alloc_layout + callbacks + (on error) dealloc
@@ -983,6 +1053,34 @@ fn run_history<const M: usize>(plan: &Plan) {
             return;
         }
     }
+    // C18: an arena built with a capacity serves that many bytes (in MIN_ALIGN multiples)
+    // without obtaining more memory
+    if how != 0 && cap > 0 && cap <= HUGE && fp != 0 && d.rng.chance(1, 2) {
+        let want = cap - cap % M;
+        if want > 0 {
+            let parts = 1 + d.rng.usize_below(3);
+            let mut left = want;
+            for i in 0..parts {
+                let sz = if i + 1 == parts { left } else { (left / 2) - (left / 2) % M };
+                left -= sz;
+                let lay = Layout::from_size_align(sz, 1).unwrap();
+                let desc = format!("alloc {} 1 1 probe_c18cap", sz);
+                d.begin(&desc);
+                let b = d.bump.as_ref().unwrap();
+                let r = guarded(|| b.try_alloc_layout(lay).map(|p| p.as_ptr() as usize).map_err(|_| ()));
+                let out = match r {
+                    Ok(Ok(a)) => {
+                        let exp = pattern(&mut d.rng, sz);
+                        unsafe { write_bytes(a, &exp) };
+                        Ok((a, sz, 1, exp))
+                    }
+                    Ok(Err(())) => Err(Res::Err),
+                    Err(p) => Err(p),
+                };
+                d.record_alloc(&desc, out);
+            }
+        }
+    }
     let nops = 5 + d.rng.usize_below(plan.maxops.max(6) - 5);
     let uniform_mode = false;
     let _ = uniform_mode;
@@ -1023,8 +1121,10 @@ fn run_history<const M: usize>(plan: &Plan) {
             d.op_reset();
         } else if r < 88 {
             d.op_setlimit();
-        } else if r < 95 {
+        } else if r < 94 {
             d.op_try_with(0);
+        } else if r < 96 {
+            d.op_probe_capacity();
         } else {
             d.op_try_fill();
         }
